@@ -675,6 +675,9 @@ func classify(pre *obs, op *opDef) string {
 			}
 			slots += t.slots
 		}
+		if len(op.toks) != 1 {
+			cl = "batch"
+		}
 		if pre == nil {
 			return fmt.Sprintf("op=submit(%s)", cl)
 		}
@@ -683,7 +686,7 @@ func classify(pre *obs, op *opDef) string {
 			room = "full"
 		}
 		if len(op.toks) != 1 {
-			return fmt.Sprintf("op=submit(%s)|ctx=%s", cl, room)
+			return fmt.Sprintf("op=submit(batch)|ctx=%s", room)
 		}
 		t := op.toks[0]
 		isLocal := op.kind == opLocal || pre.locals[t.sender]
